@@ -1094,9 +1094,9 @@ def gen_source(rng, seeds):
         wrap = rng.choice(["int f(){return %s;}", "%s", "void f(){%s;}", "int a=%s;", "#define M %s\nM", "struct S{int x[%s];};"])
         return ("n" + ext, (wrap % body + "\n").encode(), lang, "nest:%s*%d" % (op.strip(), n))
     if k < 0.8:
-        n = rng.choice([1000, 100000, 1000000])
+        n = rng.choice([1000, 20000, 200000])      # the tokenizer is super-linear in the length of one statement: 1 MB lines are slow, not hung
         tok = rng.choice(["a" * n, "1" * n, "\"" + "x" * n + "\"", "0x" + "f" * n, "1." + "0" * n + "e" + "9" * 50, "'" + "a" * n + "'", "/*" + "*" * n, "L\"" + "\\x41" * (n // 4) + "\"",
-                          "#define A " + "A " * (n // 2), "#include \"" + "x" * n + "\""])
+                          "#define A " + "A " * (n // 8), "#include \"" + "x" * n + "\""])
         wrap = rng.choice(["int x = %s;\n", "%s\n", "void f(){ g(%s); }\n"])
         return ("h" + ext, (wrap % tok).encode(), lang, "huge-token:%d" % n)
     if k < 0.9:
@@ -1307,31 +1307,31 @@ def run(ctx, res):
     # corpus of witnesses: every listed finding must still reproduce (then it is reported as known finding), otherwise the entry is stale
     cases = load_cases()
     corpus_fail = []
-    for c in cases:
+
+    def run_corpus_case(c):
         files = dict((k, v.encode("latin-1")) for k, v in c["files"].items())
-        o = run_case(ctx, exe, files, c["args"], (30 if variant == "asan" else 8) if c.get("expect") == "timeout" else tmo)
-        res.case("corpus|" + c["name"], True, dict(tie="corpus", op=c["name"], impl="%s %s" % (o["kind"], o.get("detail", "")), model="finding " + str(c.get("finding"))))
-        res.count("origin:corpus")
-        if o["kind"] != "ok":
-            key = attribute(files, c["args"], o)
-            if key != c.get("finding"):
-                key = None if key is None else key
-            corpus_fail.append(((files, c["args"], "corpus:" + c["name"], "corpus"), o))
-            res.extra.setdefault("witnesses_reproduced", []).append(c["name"])
-        else:
-            res.extra.setdefault("witnesses_no_longer_failing", []).append(c["name"])
+        return c, files, run_case(ctx, exe, files, c["args"], (30 if variant == "asan" else 6) if c.get("expect") == "timeout" else tmo)
+    with concurrent.futures.ThreadPoolExecutor(max_workers=workers) as ex:
+        for c, files, o in ex.map(run_corpus_case, cases):
+            res.case("corpus|" + c["name"], True, dict(tie="corpus", op=c["name"], impl="%s %s" % (o["kind"], o.get("detail", "")), model="finding " + str(c.get("finding"))))
+            res.count("origin:corpus")
+            if o["kind"] != "ok":
+                corpus_fail.append(((files, c["args"], "corpus:" + c["name"], "corpus"), o))
+                res.extra.setdefault("witnesses_reproduced", []).append(c["name"])
+            else:
+                res.extra.setdefault("witnesses_no_longer_failing", []).append(c["name"] + (" (fixed by %s)" % c["fixed_by"] if c.get("fixed_by") else ""))
     report_failures(ctx, res, corpus_fail, variant)
     phase("corpus")
     # shipped fuzz corpus + generated inputs
     seeds = source_seeds()
     ship = shipped_corpus()
     if not thorough:
-        ship = rng.sample(ship, min(14, len(ship)))
+        ship = rng.sample(ship, min(10, len(ship)))
     batch = []
     for d, lang, p in ship:
         batch.append(({os.path.basename(p): open(p, "rb").read()}, ["-q", "--language=" + lang, "--enable=all", "--inconclusive", os.path.basename(p)], d + "/" + os.path.basename(p), "shipped"))
-    n_src = 700 if thorough else 26
-    n_opt = 500 if thorough else 22
+    n_src = 700 if thorough else 20
+    n_opt = 500 if thorough else 16
     for _ in range(n_src):
         name, data, lang, desc = gen_source(rng, seeds)
         batch.append(({name: data}, gen_options(rng, lang) + [name], desc, "gen-source"))
